@@ -20,8 +20,71 @@ BUDGET = {'quick': {'examples': 4000, 'workers': 8},
           'thorough': {'examples': 30000, 'workers': 16}}
 
 
+def thread_strategy(roles):
+    from vlib import threadprog
+    return st.fixed_dictionaries({
+        'mode': st.just('threads'),
+        'kind': st.sampled_from(['fs', 'fs', 'mapping', 'demo']),
+        'programs': st.lists(st.sampled_from(roles).flatmap(
+            lambda r: st.tuples(st.just(r), threadprog.program_strategy(r)).map(list)), min_size=2, max_size=4),
+        'schedule': threadprog.SCHEDULE,
+        'lines': st.booleans(),
+    })
+
+
+def line_funcs():
+    import sys
+    import ZODB.Connection
+    import ZODB.FileStorage
+    import ZODB.MappingStorage
+    import ZODB.mvccadapter
+    FS = sys.modules['ZODB.FileStorage.FileStorage'].FileStorage
+    A = ZODB.mvccadapter.MVCCAdapterInstance
+    M = ZODB.MappingStorage.MappingStorage
+    C = ZODB.Connection.Connection
+    return [A.poll_invalidations, A._invalidate, A.tpc_finish, A.load, ZODB.mvccadapter.MVCCAdapter._invalidate_finish,
+            FS.tpc_finish, FS._finish, FS._finish_finish, FS.loadBefore, FS.store,
+            M.__dict__['tpc_finish'], M.__dict__['loadBefore'], M.__dict__['store'],
+            C.newTransaction, C.tpc_finish, C.setstate]
+
+
+def run_threads(case, prop, oracles):
+    from vlib import threadprog
+    out = Outcome()
+    clock.install()
+    clock.reset()
+    d = newdir()
+    tr = threadprog.ThreadRun(case['kind'], d)
+    try:
+        threads = []
+        for i, (role, prog) in enumerate(case['programs']):
+            threads.append(('%s%d' % (role[0], i), tr.body('%s%d' % (role[0], i), prog, role)))
+        s = tr.run(threads, case['schedule'], line_funcs() if case.get('lines') else ())
+        out.evals = max(1, s.steps)
+        out.label('threads', 'threads-' + case['kind'])
+        if s.switches:
+            out.label('threads-with-preemption')
+        if any('tpc_finish' in p or 'poll_invalidations' in p or '_finish' in p for p in s.preempt_points):
+            out.label('preempted-inside-finish-or-poll')
+        from ZODB.POSException import ConflictError
+        if not threadprog.thread_problems(s, out, prop, allowed=(ConflictError,)):
+            for o in oracles:
+                if not out.failures:
+                    o(tr, out, prop)
+        out.nontrivial = s.switches > 0 and any(k == 'commit-ok' and d_[0] for _, _, k, d_ in tr.events)
+    finally:
+        tr.close()
+    return out
+
+
 def strategy(tier, weights='mixed'):
     n = 25 if tier == 'quick' else 50
+    seq = _seq_strategy(n, weights)
+    roles = ['committer', 'committer', 'reader'] if weights == 'mixed' else ['committer']
+    return st.one_of(seq, seq, seq, thread_strategy(roles))
+
+
+def _seq_strategy(n, weights):
     return st.integers(2, 3).flatmap(lambda nc: st.fixed_dictionaries({
         'kind': st.sampled_from(['fs', 'fs', 'mapping', 'demo', 'demo-fs']),
         'nconn': st.just(nc), 'pool': st.sampled_from([1, 2, 7]),
@@ -32,7 +95,8 @@ def run(case, prop):
     out = Outcome()
     out.evals = 0
     clock.install()
-    locks.install()
+    from vlib import sched
+    sched.install()
     clock.reset()
     d = newdir()
     w = mvccprog.MWorld(case['kind'], d, out, prop, case['nconn'], case['pool'])
@@ -53,6 +117,9 @@ def run(case, prop):
 
 
 def execute(case):
+    if case.get('mode') == 'threads':
+        from vlib import threadprog
+        return run_threads(case, PROPERTY, [threadprog.snapshot_oracle, threadprog.history_oracle])
     out, w = run(case, PROPERTY)
     out.nontrivial = w.stale_reads > 0
     return out
